@@ -21,7 +21,9 @@ func csvQuote(s string) string { return `"` + strings.ReplaceAll(s, `"`, `""`) +
 // WriteCSVDocumented renders the twelve documented columns; text columns are always
 // quoted (legal RFC 4180, and it keeps blanks unambiguous), numbers are plain decimals,
 // body and headers are standard base64; records end with LF or CRLF.
-func WriteCSVDocumented(rs []vegeta.Result, crlf bool) []byte { return WriteCSVDocumentedQ(rs, crlf, false) }
+func WriteCSVDocumented(rs []vegeta.Result, crlf bool) []byte {
+	return WriteCSVDocumentedQ(rs, crlf, false)
+}
 
 // WriteCSVDocumentedQ can also quote the numeric and base64 columns (any field may be quoted in RFC 4180).
 func WriteCSVDocumentedQ(rs []vegeta.Result, crlf, quoteAll bool) []byte {
